@@ -164,10 +164,11 @@ def finish(prop: str, tier: str, seed: int, units: list, outcomes: list, known_l
         "wall_s": round(time.time() - t0, 1),
         "violations": len(violations),
     }
-    os.makedirs(os.path.join(ROOT, "evidence"), exist_ok=True)
-    tmp = os.path.join(ROOT, "evidence", f".{prop}.json.tmp")
+    evdir = os.environ.get("VERIF_EVIDENCE_DIR") or os.path.join(ROOT, "evidence")   # seeded-change runs write elsewhere
+    os.makedirs(evdir, exist_ok=True)
+    tmp = os.path.join(evdir, f".{prop}.json.tmp")
     json.dump(ev, open(tmp, "w"), indent=1, default=str)
-    os.replace(tmp, os.path.join(ROOT, "evidence", f"{prop}.json"))
+    os.replace(tmp, os.path.join(evdir, f"{prop}.json"))
     for line in known_lines:
         print(line)
     for o in outcomes:
